@@ -886,6 +886,10 @@ func errFactFor(facts []Atom, call ssa.Value, wantNil bool) (Atom, bool) {
 		}
 		x := a.X
 		if x.Op == "Ext" {
+			// the error result of the call, not one of its other results
+			if ex, ok := x.V.(*ssa.Extract); ok && !isErrorType(ex.Type()) {
+				return false
+			}
 			x = x.Args[0]
 		}
 		return x.V == call
